@@ -23,7 +23,7 @@
 (***************************************************************************)
 EXTENDS Integers, Sequences, FiniteSets, TLC, SequencesExt, Functions, Json
 
-CONSTANTS Sections,   \* subset of {"bids", "meadows", "mne", "dm", "spm"}
+CONSTANTS Sections,   \* subset of {"bids", "layout", "meadows", "mne", "dm", "spm"}
           BidsVals,   \* record: entity name -> set of value words (ext: set of word sequences)
           DescArgs,   \* desc words passed to the sibling look-ups
           SufArgs,    \* suffix words passed to the sibling look-ups
@@ -33,7 +33,9 @@ CONSTANTS Sections,   \* subset of {"bids", "meadows", "mne", "dm", "spm"}
           VolSet,     \* design matrix: volume counts
           SpmMaxRuns, \* SPM: max number of runs
           SpmPats,    \* SPM: data patterns
-          SpmEmitMod  \* SPM: emit one in SpmEmitMod run structures
+          SpmEmitMod, \* SPM: emit one in SpmEmitMod run structures
+          LayoutDepth,   \* layout: length of the enumerated look-up histories on ONE layout object
+          LayoutEmitMod  \* layout: emit one in LayoutEmitMod histories
 
 VARIABLES sec, stage, inp, out
 vars == <<sec, stage, inp, out>>
@@ -188,6 +190,39 @@ LookList(e) ==            \* the look-ups emitted for replay (two argument pairs
   IN <<one("meta", <<0, 0>>), one("events", <<0, 0>>), one("tsib", a1), one("tsib", a2),
        one("msib", a1), one("msib", a2)>> \o Opt(e.desc # 0, one("key", <<0, 0>>))
 
+(* ---- a layout object used for MANY look-ups ------------------------------ *)
+(* A BidsLayout is created once per data set and then asked for siblings of  *)
+(* many files.  The specification's layout has no memory: the answer to a    *)
+(* look-up is a function of the base file and the look-up alone, whatever    *)
+(* was asked before.  Histories of look-ups over a family of files that      *)
+(* differ from each other in ONE entity are enumerated and replayed on one   *)
+(* real layout object (and one real file object per family member).          *)
+FirstOf(S) == CHOOSE x \in S : \A y \in S : x <= y
+LastOf(S) == CHOOSE x \in S : \A y \in S : x >= y
+ExtFirst == CHOOSE x \in BidsVals.ext : \A y \in BidsVals.ext : Len(x) <= Len(y)
+ExtLast == CHOOSE x \in BidsVals.ext : \A y \in BidsVals.ext : Len(x) >= Len(y)
+Base0 == [sub |-> FirstOf(BidsVals.sub), ses |-> FirstOf(BidsVals.ses), task |-> FirstOf(BidsVals.task),
+          run |-> FirstOf(BidsVals.run), space |-> FirstOf(BidsVals.space), desc |-> FirstOf(BidsVals.desc),
+          suffix |-> FirstOf(BidsVals.suffix), ext |-> ExtFirst,
+          derivative |-> FirstOf(BidsVals.derivative), modality |-> FirstOf(BidsVals.modality)]
+Family ==                  \* the base file and every file that differs from it in exactly one entity
+  <<Base0,
+    [Base0 EXCEPT !.sub = LastOf(BidsVals.sub)], [Base0 EXCEPT !.ses = LastOf(BidsVals.ses)],
+    [Base0 EXCEPT !.task = LastOf(BidsVals.task)], [Base0 EXCEPT !.run = LastOf(BidsVals.run)],
+    [Base0 EXCEPT !.space = LastOf(BidsVals.space)], [Base0 EXCEPT !.desc = LastOf(BidsVals.desc)],
+    [Base0 EXCEPT !.suffix = LastOf(BidsVals.suffix)], [Base0 EXCEPT !.ext = ExtLast],
+    [Base0 EXCEPT !.derivative = LastOf(BidsVals.derivative)],
+    [Base0 EXCEPT !.modality = LastOf(BidsVals.modality)],
+    [Base0 EXCEPT !.ses = 0], [Base0 EXCEPT !.task = 0], [Base0 EXCEPT !.run = 0],
+    [Base0 EXCEPT !.space = 0], [Base0 EXCEPT !.desc = 0], [Base0 EXCEPT !.derivative = 0]>>
+LayoutArg == CHOOSE a \in LookArgs : \A b \in LookArgs : a[1] <= b[1] /\ (a[1] = b[1] => a[2] <= b[2])
+\* the answer of a (memoryless) layout
+Answer(files, f, kind, d, s) == LookupEnt(kind, files[f], d, s)
+LayoutStepRec(files, f, kind) ==
+  LET a == IF kind \in {"tsib", "msib"} THEN LayoutArg ELSE <<0, 0>>
+      r == Answer(files, f, kind, a[1], a[2]) IN
+  [f |-> f, kind |-> kind, d |-> a[1], s |-> a[2], ent |-> r, path |-> Format(r)]
+
 (* ============================ (c) Meadows ================================ *)
 CONSTANTS NumWords,     \* words that consist of digits only (value = word - NumBase)
           PetWords,     \* words that are in the petname list
@@ -256,33 +291,53 @@ Loaded(vecs, order, sort) ==
        [conds |-> Pick(order, sp), vec |-> [r \in 1..Len(vecs) |-> Reorder(vecs[r], Len(order), sp)]]
 AssocRow(r, conds, v) == LET n == Len(conds) IN
   \A p \in 1..n : \A q \in 1..n : p < q => v[Cidx(n, p, q)] = Tok(r, conds[p], conds[q])
-AssocOk(L) == \A r \in 1..Len(L.vec) : AssocRow(r, L.conds, L.vec[r])
+AssocOk(L) == \A k \in 1..Len(L.vec) : AssocRow(L.rows[k], L.conds, L.vec[k])
 
-\* json files: a list of tasks, flag 1 = multi-arrangement task, 0 = any other task type
-TaskLayouts == {l \in UNION {[1..k -> {0, 1}] : k \in 1..(MaxRdm + 1)} :
-                  Cardinality({i \in 1..Len(l) : l[i] = 1}) \in 1..MaxRdm}
-MaPos(l) == SelectSeq([k \in 1..Len(l) |-> k], LAMBDA k : l[k] = 1)
+\* json files: a list of tasks.  0 = any other task type; 1 = multi-arrangement task listing the stimuli
+\* in the file's (first task's) order; 2 = the same stimuli listed in reverse order; 3 = another stimulus
+\* set (last stimulus replaced by a new one).  The first multi-arrangement task is of kind 1.
+TaskLayouts == {l \in UNION {[1..k -> 0..3] : k \in 1..(MaxRdm + 1)} :
+                  /\ Cardinality({i \in 1..Len(l) : l[i] # 0}) \in 1..MaxRdm
+                  /\ \A i \in 1..Len(l) : (l[i] # 0 /\ \A j \in 1..(i - 1) : l[j] = 0) => l[i] = 1}
+MaPos(l) == SelectSeq([k \in 1..Len(l) |-> k], LAMBDA k : l[k] # 0)
+\* which multi-arrangement tasks (by index among them) end up in the RDMs object.  A task with another
+\* stimulus set can never share the stimulus list; a task that lists the same stimuli in another order is
+\* either left out ("skip", what the loader documents: it warns) or brought into the common order ("align").
+Included(l, mode) == SelectSeq([k \in 1..Len(MaPos(l)) |-> k],
+                               LAMBDA k : l[MaPos(l)[k]] = 1 \/ (mode = "align" /\ l[MaPos(l)[k]] = 2))
+TaskOrder(order, kind) == CASE kind = 2 -> Reverse(order)
+                            [] kind = 3 -> [k \in 1..Len(order) |-> IF k = Len(order) THEN Len(order) + 1 ELSE order[k]]
+                            [] OTHER -> order
 \* participants of a multi-participant file, in the order of the file's variables
 PartLists == {pl \in UNION {[1..k -> 1..MaxRdm] : k \in 1..MaxRdm} : Cardinality(Range(pl)) = Len(pl)}
 
 \* what the file holds for RDM r: its own stimulus list and vector.  In a multi-participant file every
 \* participant has an own stimulus list; pvar = 1 lists the second participant's stimuli in reverse order.
-FileOrder(i, r) == IF i.pvar = 1 /\ r = 2 THEN Reverse(i.order) ELSE i.order
-MeadowsExpectN(d, i) ==
-  LET nr == CASE d.shape = "1p1t" -> 1 [] d.shape = "mp1t" -> Len(i.parts) [] OTHER -> Len(MaPos(i.layout))
+FileOrder(i, d, r) == IF d.shape = "1pmt" THEN TaskOrder(i.order, i.layout[MaPos(i.layout)[r]])
+                      ELSE IF i.pvar = 1 /\ r = 2 THEN Reverse(i.order) ELSE i.order
+MeadowsExpectM(d, i, mode) ==
+  LET nf == CASE d.shape = "1p1t" -> 1 [] d.shape = "mp1t" -> Len(i.parts) [] OTHER -> Len(MaPos(i.layout))
+      \* source RDMs (participants / multi-arrangement tasks of the file) that make up the rows
+      rows == IF d.shape = "1pmt" THEN Included(i.layout, mode) ELSE [r \in 1..nf |-> r]
+      nr == Len(rows)
       \* the RDMs object has ONE stimulus list (the first one of the file, or the sorted one); every value
       \* is the dissimilarity of the two stimuli its position names, whatever order the file listed them in
-      L == Loaded([r \in 1..nr |-> FileVec(r, i.order)], i.order, i.sort)
-  IN [conds |-> L.conds, vec |-> L.vec, exp |-> d.exp, ver |-> d.ver, struct |-> d.struct, shape |-> d.shape,
-      ft |-> d.ft,
-      file |-> [r \in 1..nr |-> [order |-> FileOrder(i, r), vec |-> FileVec(r, FileOrder(i, r))]],
+      L == Loaded([k \in 1..nr |-> FileVec(rows[k], i.order)], i.order, i.sort)
+  IN [conds |-> L.conds, vec |-> L.vec, rows |-> rows,
+      exp |-> d.exp, ver |-> d.ver, struct |-> d.struct, shape |-> d.shape, ft |-> d.ft,
+      file |-> [r \in 1..nf |-> [order |-> FileOrder(i, d, r), vec |-> FileVec(r, FileOrder(i, d, r))]],
       participant |-> CASE d.shape = "mp1t" -> <<>> [] OTHER -> [r \in 1..nr |-> d.part],
       plist |-> IF d.shape = "mp1t" THEN i.parts ELSE <<>>,
       task |-> CASE d.shape = "mp1t" -> [r \in 1..nr |-> d.tname] [] OTHER -> <<>>,
-      tpos |-> IF d.shape = "1pmt" THEN MaPos(i.layout) ELSE <<>>,       \* 1-based positions of the tasks
+      tpos |-> IF d.shape = "1pmt" THEN [k \in 1..nr |-> MaPos(i.layout)[rows[k]]] ELSE <<>>,   \* 1-based
       task_index |-> CASE d.shape = "1p1t" -> <<NumVal(d.tidx)>>
-                       [] d.shape = "1pmt" -> [k \in 1..nr |-> MaPos(i.layout)[k] - 1]
+                       [] d.shape = "1pmt" -> [k \in 1..nr |-> MaPos(i.layout)[rows[k]] - 1]
                        [] OTHER -> <<>>]
+\* the rows / values / task descriptors under the other admissible treatment of reordered tasks
+AltOf(d, i) == LET x == MeadowsExpectM(d, i, "align") IN
+               [rows |-> x.rows, vec |-> x.vec, tpos |-> x.tpos, task_index |-> x.task_index,
+                participant |-> x.participant]
+MeadowsExpectN(d, i) == MeadowsExpectM(d, i, "skip") @@ [alt |-> AltOf(d, i)]
 MeadowsExpect(i) == MeadowsExpectN(ParseName(FormatName(i.name)), i)
 
 (* ============================== (d) MNE ================================== *)
@@ -299,11 +354,15 @@ RECURSIVE FirstSeen(_, _)
 FirstSeen(ev, seen) == IF ev = <<>> THEN <<>>
                        ELSE IF Head(ev) \in seen THEN FirstSeen(Tail(ev), seen)
                        ELSE <<Head(ev)>> \o FirstSeen(Tail(ev), seen \cup {Head(ev)})
+\* i.nan = set of confound columns (1..nconf) that contain n/a values: such columns are dropped
 DmExpect(i) ==
-  LET cc == FirstSeen(i.ev, {})  nc == Len(cc) IN
-  [ncols |-> nc + i.nconf, colcond |-> cc,
-   mask |-> [k \in 1..(nc + i.nconf) |-> IF k <= nc THEN 1 ELSE 0],
-   dof |-> i.nvols - (nc + i.nconf)]
+  LET cc == FirstSeen(i.ev, {})  nc == Len(cc)
+      kept == SelectSeq([j \in 1..i.nconf |-> j], LAMBDA j : j \notin i.nan)
+      ncols == nc + Len(kept) IN
+  [ncols |-> ncols, colcond |-> cc, confkept |-> kept,
+   mask |-> [k \in 1..ncols |-> IF k <= nc THEN 1 ELSE 0],
+   dof |-> i.nvols - ncols]
+NanSets(n) == IF n = 0 THEN {{}} ELSE {{}, {1}, {n}, 1..n}
 SurjSeqs(nc) == {s \in UNION {[1..k -> 1..nc] : k \in nc..(nc + 1)} : Range(s) = 1..nc}
 
 (* ============================= (f) SPM =================================== *)
@@ -371,11 +430,14 @@ InitMne == /\ sec = "mne" /\ stage = "input" /\ out = <<>>
                 inp = [ne |-> ne, nc |-> nc, nt |-> nt, sfreq |-> sf, first |-> first, codes |-> codes]
 InitDm == /\ sec = "dm" /\ stage = "input" /\ out = <<>>
           /\ \E nc \in 1..3, tr \in 1..3, nv \in VolSet, nconf \in 0..3 : \E ev \in SurjSeqs(nc) :
-               inp = [ev |-> ev, tr |-> tr, nvols |-> nv, nconf |-> nconf]
+               \E nan \in NanSets(nconf) :
+               inp = [ev |-> ev, tr |-> tr, nvols |-> nv, nconf |-> nconf, nan |-> nan]
 InitSpm == /\ sec = "spm" /\ stage = "input" /\ out = <<>>
            /\ \E k \in 1..SpmMaxRuns, P \in 1..2, pat \in SpmPats : \E runs \in [1..k -> SpmRuns] :
                 inp = [runs |-> runs, Y |-> SpmY(SumN(runs), P, pat)]
+InitLayout == /\ sec = "layout" /\ stage = "open" /\ inp = Family /\ out = <<>>
 Init == \/ ("bids" \in Sections /\ InitBids) \/ ("meadows" \in Sections /\ InitMeadows)
+        \/ ("layout" \in Sections /\ InitLayout)
         \/ ("mne" \in Sections /\ InitMne) \/ ("dm" \in Sections /\ InitDm)
         \/ ("spm" \in Sections /\ InitSpm)
 
@@ -398,7 +460,12 @@ MneMap == /\ sec = "mne" /\ stage = "input" /\ stage' = "done" /\ out' = MneExpe
 DmBuild == /\ sec = "dm" /\ stage = "input" /\ stage' = "done" /\ out' = DmExpect(inp) /\ UNCHANGED <<sec, inp>>
 SpmFilter == /\ sec = "spm" /\ stage = "input" /\ stage' = "done"
              /\ out' = Filter(inp.Y, inp.runs) /\ UNCHANGED <<sec, inp>>
-Next == BidsFormat \/ BidsParse \/ BidsLookup \/ BidsReject \/ MeadowsName \/ MeadowsLoad
+LayoutLookup == /\ sec = "layout" /\ Len(out) < LayoutDepth
+                /\ \E f \in 1..Len(inp), kind \in LookKinds :
+                     /\ LookEnabled(kind, inp[f])
+                     /\ out' = Append(out, LayoutStepRec(inp, f, kind))
+                /\ UNCHANGED <<sec, stage, inp>>
+Next == LayoutLookup \/ BidsFormat \/ BidsParse \/ BidsLookup \/ BidsReject \/ MeadowsName \/ MeadowsLoad
         \/ MneMap \/ DmBuild \/ SpmFilter
 Spec == Init /\ [][Next]_vars
 
@@ -417,15 +484,27 @@ LookupFrame == (sec = "bids" /\ stage = "parsed" /\ Valid(inp)) =>
       /\ LookupPath(kind, out.path, a[1], a[2]) = Format(r)
       /\ Parse(Format(r)) = r
       /\ (kind # "key" => Valid(r))
+\* b (histories): at EVERY step of every history the answer is the one a fresh layout would give for that
+\* base file: it differs from the base only in the entities the look-up names, whatever was asked before
+LayoutFrame == sec = "layout" =>
+   \A k \in 1..Len(out) :
+      LET st == out[k]  base == inp[st.f] IN
+      /\ st.ent = LookupEnt(st.kind, base, st.d, st.s)
+      /\ \A fld \in Fields \ Named(st.kind) : Field(st.ent, fld) = Field(base, fld)
+      /\ st.path = LookupPath(st.kind, Format(base), st.d, st.s)
+      /\ \A j \in 1..Len(out) : (out[j].f = st.f /\ out[j].kind = st.kind) => out[j].path = st.path
 \* c: name grammar is unambiguous; sorting keeps every value with its two stimuli
 NameRoundTrip == (sec = "meadows" /\ stage = "named") => ParseName(out.fname) = inp.name
 MeadowsAssoc == (sec = "meadows" /\ stage = "done") =>
-   /\ AssocOk([conds |-> out.expect.conds, vec |-> out.expect.vec])
+   /\ AssocOk([conds |-> out.expect.conds, vec |-> out.expect.vec, rows |-> out.expect.rows])
+   /\ AssocOk([conds |-> out.expect.conds, vec |-> out.expect.alt.vec, rows |-> out.expect.alt.rows])
+   /\ Len(out.expect.vec) >= 1 /\ Range(out.expect.rows) \subseteq Range(out.expect.alt.rows)
    /\ (inp.sort = 1 => \A k \in 1..Len(inp.order) : out.expect.conds[k] = k)
    /\ (inp.sort = 0 => out.expect.conds = inp.order)
-   /\ \A r \in 1..Len(out.expect.vec) :
-        /\ Range(out.expect.vec[r]) = Range(out.expect.file[r].vec)       \* a permutation of the file's values
-        /\ AssocRow(r, out.expect.file[r].order, out.expect.file[r].vec)   \* the file itself is token-consistent
+   /\ \A k \in 1..Len(out.expect.alt.vec) :                               \* a permutation of the file's values
+        Range(out.expect.alt.vec[k]) = Range(out.expect.file[out.expect.alt.rows[k]].vec)
+   /\ \A r \in 1..Len(out.expect.file) :                                   \* the file itself is token-consistent
+        AssocRow(r, out.expect.file[r].order, out.expect.file[r].vec)
 \* d, e: structural
 MneShape == (sec = "mne" /\ stage = "done") =>
    /\ Len(out.meas) = inp.ne /\ Len(out.event) = inp.ne /\ Len(out.name) = inp.nc /\ Len(out.time) = inp.nt
@@ -435,6 +514,8 @@ DmShape == (sec = "dm" /\ stage = "done") =>
    /\ Cardinality({k \in 1..out.ncols : out.mask[k] = 1}) = Cardinality(Range(inp.ev))
    /\ Range(out.colcond) = Range(inp.ev) /\ Len(out.colcond) = Cardinality(Range(inp.ev))
    /\ \A k \in 1..out.ncols : out.mask[k] = 1 <=> k <= Len(out.colcond)
+   /\ out.ncols = Len(out.colcond) + Len(out.confkept)
+   /\ Range(out.confkept) = (1..inp.nconf) \ inp.nan
 \* f: the bases are orthonormal; the result has no component left in its run's regressors; filtering
 \*    again changes nothing; a run's result depends on that run's rows and basis only
 SpmLaws == (sec = "spm" /\ stage = "done") =>
@@ -451,6 +532,11 @@ SpmLaws == (sec = "spm" /\ stage = "done") =>
 \* (takes an argument so that TLC does not pre-evaluate it once as a constant)
 Sampled(x) == EmitMod = 1 \/ RandomElement(1..EmitMod) = 1
 Emit ==
+  (sec = "layout" /\ Len(out) = LayoutDepth) =>
+     ((LayoutEmitMod = 1 \/ RandomElement(1..LayoutEmitMod) = 1) =>
+        PrintT(ToJson([sec |-> "layout", files |-> inp, paths |-> [f \in 1..Len(inp) |-> Format(inp[f])],
+                       hist |-> out])))
+EmitDone ==
   stage = "done" =>
     CASE sec = "bids" -> ((Valid(inp) \/ Sampled(stage)) =>
             PrintT(ToJson([sec |-> "bids", e |-> inp, valid |-> Valid(inp), path |-> out.path,
